@@ -84,7 +84,8 @@ func GetRawProtoField(protoBytes []byte, fieldNumber int) ([]byte, error) {
 				// calculate the new offset
 				offset += lenBytes
 				// extract the field value bytes
-				if offset+int(valueLen) > len(protoBytes) {
+				// (compare as uint64 against the remaining length: a length >= 2^63 is negative as an int)
+				if valueLen > uint64(len(protoBytes)-offset) {
 					return nil, fmt.Errorf("field value exceeds buffer bounds")
 				}
 				// make buffer to return
